@@ -97,45 +97,61 @@ pub fn d_min() {
     assert!(!o.ok || o.remaining == 0, "C13: a successful decode consumes exactly the item");
 }
 
-/// Decoder size gate on the UNSCALED source (literal 300). The input is an outer list header
-/// announcing `l` payload bytes (long form f9 hi lo) whose first item is a list where the signature
-/// string must be (so parsing stops right after the gate), followed by `extra` = 0..=1000 further
-/// bytes in the buffer. `l` is concrete per harness (the symbolic executor must be able to fold
-/// the header, otherwise it explores the whole decoder): item length 3 + l.
+/// Decoder size gate and prefix-locality on the SCALED source (limit 32 = 32 + (literal - 300)): a
+/// list item of `total` bytes whose first element is a list where the signature string must be (so
+/// parsing stops right after the gate), followed by `extra` arbitrary further bytes. Buffers above
+/// 64 bytes are not field-sensitive in CBMC and the decoder is then explored in full (measured:
+/// out of memory), hence the scaled limit; `total` is concrete per harness for the same reason.
 #[inline(always)]
-fn gate_body(l: usize) {
-    oracle();
-    let extra = sym::usize();
-    sym::assume(extra <= 1000);
-    let mut buf = [0u8; 1304];
-    buf[0] = 0xf9;
-    buf[1] = (l >> 8) as u8;
-    buf[2] = l as u8;
-    buf[3] = 0xc0;
-    let total = 3 + l;
-    let mut s: &[u8] = &buf[..total + extra];
+fn gate_decode(s0: &[u8]) -> (bool, bool, bool) {
+    let mut s: &[u8] = s0;
     let r = <Enr<MKey> as Decodable>::decode(&mut s);
     let size_err = matches!(r, Err(alloy_rlp::Error::Custom("enr exceeds max size")));
     let other_err = matches!(r, Err(alloy_rlp::Error::UnexpectedList));
     let is_ok = r.is_ok();
     core::mem::forget(r);
-    vcover!(extra == 1000, "1000 bytes after the item");
+    (size_err, other_err, is_ok)
+}
+
+/// A symbolic slice LENGTH defeats the symbolic executor's constant folding of the header bytes
+/// (measured: the whole decoder is then explored and memory runs out), so the suffix length is a
+/// symbolic value that selects one of the concrete-length slices: all lengths 0..=27 are covered,
+/// the suffix bytes themselves are arbitrary.
+#[inline(always)]
+fn gate_body(total: usize) {
+    oracle();
+    let extra = sym::usize();
+    sym::assume(extra <= 27);
+    let mut buf: [u8; 60] = sym::bytes::<60>();
+    buf[0] = 0xc0 + (total as u8 - 1);
+    buf[1] = 0xc0;
+    let mut out = (false, false, true);
+    macro_rules! pick { ($($e:expr),*) => { $( if extra == $e { out = gate_decode(&buf[..total + $e]); } )* } }
+    pick!(0, 1, 2, 3, 4, 5, 6, 7, 8, 9, 10, 11, 12, 13, 14, 15, 16, 17, 18, 19, 20, 21, 22, 23, 24, 25, 26, 27);
+    let (size_err, other_err, is_ok) = out;
+    vcover!(extra == 27, "longest suffix");
     vcover!(extra == 0, "nothing after the item");
     assert!(!is_ok, "C02: a record whose signature item is a list is rejected");
-    assert!(size_err == (total > 300), "C09: the decoder refuses for size exactly the items longer than 300 bytes, whatever follows them");
+    assert!(size_err == (total > enr::VERIF_MAX_ENR_SIZE), "C09: the decoder refuses for size exactly the items longer than the limit, whatever follows them");
     assert!(size_err || other_err, "C13: an item within the limit is judged on its own content, whatever follows it");
 }
 #[cfg_attr(kani, kani::proof)]
 #[cfg_attr(kani, kani::stub(enr::digest, digest_stub))]
 #[cfg_attr(kani, kani::stub(enr::Enr::id, id_stub))]
-pub fn d_gate_300() {
-    gate_body(297)
+pub fn d_gate_at() {
+    gate_body(32)
 }
 #[cfg_attr(kani, kani::proof)]
 #[cfg_attr(kani, kani::stub(enr::digest, digest_stub))]
 #[cfg_attr(kani, kani::stub(enr::Enr::id, id_stub))]
-pub fn d_gate_301() {
-    gate_body(298)
+pub fn d_gate_above() {
+    gate_body(33)
+}
+#[cfg_attr(kani, kani::proof)]
+#[cfg_attr(kani, kani::stub(enr::digest, digest_stub))]
+#[cfg_attr(kani, kani::stub(enr::Enr::id, id_stub))]
+pub fn d_gate_small() {
+    gate_body(20)
 }
 
 /// T-min with the leanest set of observations (cost probe / fallback)
@@ -147,9 +163,15 @@ pub fn d_min_lite() {
     let seq = sym::u8();
     let pk = sym::u8();
     let v: [u8; 2] = sym::bytes::<2>();
-    let buf: [u8; 17] = [0xd0, 0x84, sg[0], sg[1], sg[2], sg[3], 0x81, seq, 0x82, b'i', b'd', 0x82, v[0], v[1], b'k', 0x81, pk];
+    let t: [u8; 17] = [0xd0, 0x84, sg[0], sg[1], sg[2], sg[3], 0x81, seq, 0x82, b'i', b'd', 0x82, v[0], v[1], b'k', 0x81, pk];
+    // the record is followed by `extra` arbitrary bytes (0..=43: up to a buffer of 60 bytes, well
+    // above the scaled limit of 32)
+    let mut buf: [u8; 60] = sym::bytes::<60>();
+    buf[..17].copy_from_slice(&t);
+    // suffix of 0 or 43 arbitrary bytes (a symbolic slice length defeats constant folding, see gate_body)
+    let extra: usize = if sym::bool() { 43 } else { 0 };
     oracle();
-    let mut s: &[u8] = &buf[..];
+    let mut s: &[u8] = if extra == 43 { &buf[..60] } else { &buf[..17] };
     let r = <Enr<MKey> as Decodable>::decode(&mut s);
     let ok = r.is_ok();
     let remaining = s.len();
@@ -160,6 +182,9 @@ pub fn d_min_lite() {
     vcover!(!ok && wf, "well-formed but signature rejected");
     assert!(ok == (wf && vret), "C02: the template is accepted exactly when it is well-formed and the signature verifies");
     assert!(!ok || (calls >= 1 && vpub == pk), "C01: a record is accepted only after its signature was checked against the key it carries");
-    assert!(!ok || remaining == 0, "C13: a successful decode consumes exactly the item");
+    vcover!(ok && extra == 43, "accepted with the longest suffix");
+    assert!(!ok || remaining == extra, "C13: a successful decode consumes exactly the item, whatever follows it");
 }
+
+
 
